@@ -189,7 +189,7 @@ func (g *ogen) node(d int, allowFail bool) onode {
 		g.failPct = 0 // one planted failure per program
 		return g.failing()
 	}
-	k := r.Intn(19)
+	k := r.Intn(20)
 	if d <= 0 {
 		k = r.Intn(3)
 	}
@@ -339,7 +339,13 @@ func (g *ogen) node(d int, allowFail bool) onode {
 			page := fmt.Sprintf("/page%d.jet", g.nfile)
 			g.p.files[lay] = "L<{{block body()}}DEADdefault{{end}}>"
 			g.p.files[page] = fmt.Sprintf("{{extends %q}}DEADtext{{block body()}}page:{{.}}{{end}}", lay)
-			return onode{src: fmt.Sprintf("{{include %q ia}}", page), out: "L<page:" + g.E(g.intVals["ia"]) + ">", failOff: -1}
+			switch r.Intn(3) {
+			case 0:
+				return onode{src: fmt.Sprintf("{{include %q ia}}", page), out: "L<page:" + g.E(g.intVals["ia"]) + ">", failOff: -1}
+			case 1: // the same through includeIfExists ...
+				return onode{src: fmt.Sprintf("{{ includeIfExists(%q, ia) }}", page), out: "L<page:" + g.E(g.intVals["ia"]) + ">", failOff: -1}
+			}
+			return onode{src: fmt.Sprintf("{{if includeIfExists(%q, ia)}}Y{{else}}DEAD{{end}}", page), out: "L<page:" + g.E(g.intVals["ia"]) + ">Y", failOff: -1}
 		case 3: // the catch variable leaves no trace, also when a variable of that name exists
 			v := g.freshVar()
 			return onode{src: fmt.Sprintf("{{ %s := \"kept\" }}{{try}}DEAD{{ nope }}{{catch %s}}c{{end}}[{{%s}}]{{try}}{{ nope }}{{catch sa}}d{{end}}[{{sa}}]", v, v, v),
@@ -433,6 +439,18 @@ func (g *ogen) node(d int, allowFail bool) onode {
 			g.lib += "{{block " + bn + "(sa, q=1)}}({{sa}}|{{q}}){{end}}"
 			return onode{src: "{{yield " + bn + "(q=ib)}}[{{sa}}]", out: "(" + g.E("false") + "|" + g.E(g.intVals["ib"]) + ")[" + g.escape(g.strVals["sa"]) + "]", failOff: -1}
 		}
+	case 18: // a name resolves through scopes, then the execution's variables, then globals, then built-ins - wherever the call is written
+		E := g.escape
+		switch r.Intn(3) {
+		case 0: // `trimSpace` is a variable of this execution (it appends "!")
+			return onode{src: `{{ x9 := trimSpace(" a") }}[{{x9}}][{{ trimSpace("b") + "c" }}][{{ ident(trimSpace("d")) }}]{{if trimSpace("e") == "e!"}}Y{{else}}DEAD{{end}}[{{ "f" | trimSpace }}][{{ trimSpace: "g" }}]`,
+				out: "[" + E(" a!") + "][" + E("b!c") + "][" + E("d!") + "]Y[" + E("f!") + "][" + E("g!") + "]", failOff: -1}
+		case 1: // `html` is a Set global
+			return onode{src: `[{{ html("<") }}][{{ y9 := html("x") }}{{y9}}][{{ ident(html("y")) + "z" }}]`, out: "[" + E("<!") + "][" + E("x!") + "][" + E("y!z") + "]", failOff: -1}
+		default: // a local shadows both
+			return onode{src: `{{if true}}{{ html := upper }}{{ trimSpace := lower }}{{ z9 := html("q") + trimSpace("R") }}[{{z9}}][{{ ident(html("s")) }}]{{end}}[{{ ident(html("t")) }}]`,
+				out: "[" + E("Qr") + "][" + E("S") + "][" + E("t!") + "]", failOff: -1}
+		}
 	case 17: // isset: typed nils stored in maps are not set, whichever way they are reached
 		g.nfile++
 		name := fmt.Sprintf("/iss%d.jet", g.nfile)
@@ -477,6 +495,8 @@ func genOracleProgram(r *h.Rand, flavor string) (*prog, *sx.Sexp) {
 		Add(bind("el", vSliceI())).Add(bind("li", vSliceT(vInt(3), vInt(0), vInt(7)))).Add(bind("ls", vSliceT(vStr("a<"), vStr(""), vStr("b")))).
 		Add(bind("m", vMapI("k", vStr("v")))).Add(bind("mn", vMapI("p", vPtr("T1", nil), "m", nilMapI(), "s", nilSliceI(), "i", vNil(), "v", vInt(1)))).Add(bind("mz", vMapI("k", vInt(0)))).Add(bind("me", vMapI("", vStr("x"), "k", vStr("")))).
 		Add(bind("ms", vMapT("a", vT2("na<", 1, true), "b", vT2("nb", 2, false), "c", vT2("", 0, false)))).Add(bind("st", vT1(5, "B<", vSliceI(vInt(1)), vMapI("k", vInt(1)), vPtr("T1", inner), vNil())))
+	vars.Add(bind("trimSpace", vFunc("shout")))
+	p.globals.Add(bind("html", vFunc("shout")))
 	p.vars = vars
 	p.data = vStr("c<x")
 	g.ctxOut = g.escape("c<x")
